@@ -25,6 +25,7 @@ FOCUS = {
  "input": "At least one of the two changes must need an UNUSUAL BUT LEGITIMATE INPUT to manifest (a boundary value, a tie, a zero, a repeated value, a particular size, a particular option or combination of options that is documented and accepted), so that ordinary inputs behave correctly.",
  "sites": "At least one of the two changes must consist of TWO COOPERATING EDITS in different functions (or files) that each look fine alone -- e.g. a helper whose contract is slightly changed and a caller that relied on the old contract on one path only.",
  "sites_input": "The FIRST change must consist of TWO COOPERATING EDITS in different functions (or files) that each look fine alone -- e.g. a helper whose contract is slightly changed (return value, mutability of what it returns, units, inclusive/exclusive bound, default argument) and a caller that relied on the old contract on one path only. The SECOND change must need an UNUSUAL BUT LEGITIMATE INPUT OR CONFIGURATION to manifest (a boundary value, a tie, a zero, a repeated value, a particular size, a documented option or combination of options, an alternative public entry point that reaches the same functionality), so that ordinary inputs through the usual entry point behave correctly.",
+ "fault_option": "The FIRST change must only manifest AFTER AN ERROR PATH OR A DEGENERATE CALL was taken earlier in the same process: an earlier call that legitimately fails or does nothing (a documented rejection, an exception on a bad or empty input, a missing name, an unreachable target, an empty result, a file that cannot be parsed) leaves something behind -- a global format or option not restored, a half-updated table, a flag or cache not reset, a partially registered object -- so that a LATER, perfectly valid call inside the property's scope misbehaves; the valid call alone, in a fresh process, must behave correctly. The SECOND change must manifest only through a DOCUMENTED OPTION, OPTIONAL ARGUMENT, OR ALTERNATIVE PUBLIC ENTRY POINT that reaches the same functionality (a keyword argument with a non-default value, a wrapper method on another class, an operator overload, a convenience function, a different but documented type for an argument), so that the usual entry point with default options behaves correctly.",
  "": "",
 }[focus]
 print(f"""You are helping to evaluate a verification harness. You work in a scratch git worktree of the pure-Python GPS trajectory library `tracklib` at `{W}` (a checkout of the project's current HEAD). Work ONLY inside `{W}` and `{OUT}`. Do not read, list or touch `/verif`, `/repo`, `/root/.vp` or any other `/tmp/seed*` directory: your work must be independent of everything there.
